@@ -201,7 +201,7 @@ func enumTamper(c *enumCtx) {
 			}
 		}
 		for _, mode := range []string{"rekey", "open-badkey"} {
-			for k := 0; k < 6; k++ {
+			for k := 0; k < map[string]int{"rekey": 6, "open-badkey": badKeyVariants}[mode]; k++ {
 				if c.mine() {
 					c.run(tamperScenario(via, 50, mode, k, c.job.SeedBase))
 				}
@@ -223,7 +223,9 @@ func tamperScenario(via string, L int, mode string, k int, seed uint64) *Scenari
 	case "open-badkey":
 		ops = append(ops, SOp{Kind: "open-badkey", Arg: k}, SOp{Kind: "get", Key: 0})
 	default:
-		ops = append(ops, SOp{Kind: "set-same", Key: 0}, SOp{Kind: "corrupt", Key: 0, Mode: mode, Arg: k}, SOp{Kind: "get", Key: 0}, SOp{Kind: "reopen"}, SOp{Kind: "get", Key: 0})
+		// the value is read through the connection before it is modified at rest (same length, same mtime) and
+		// again afterwards: what the first read left in memory must not stand in for the file
+		ops = append(ops, SOp{Kind: "set-same", Key: 0}, SOp{Kind: "get", Key: 0}, SOp{Kind: "corrupt", Key: 0, Mode: mode, Arg: k}, SOp{Kind: "get", Key: 0}, SOp{Kind: "reopen"}, SOp{Kind: "get", Key: 0})
 	}
 	scn.SClients = []SClient{{Ops: ops}}
 	return scn
